@@ -126,17 +126,26 @@ def splitSuffixParsed (netloc : Str) : Option (Str × Str) :=
   let h := pyHostname netloc
   if h = [] then none else if isSpecialHost h then none else splitSuffix h
 
-/-- stems.py:55-67 on the answer of `split_suffix` -/
-def hostStemsOfSplit (host0 : Str) : Option (Str × Str) → List TStem
+/-- stems.py:55-77 on the answer of `split_suffix`; `hn` is `parsed_url.hostname.lower()`
+(stems.py:68), `stripped = hn.rstrip(".")`.  Since FX-C12-EMPTYLABELS the empty labels that
+`split_suffix` does not return are emitted, as when `suffix_aware` is False: one stem `h:` per
+trailing dot of the hostname before the suffix stem (stems.py:71-72), and the labels of the domain
+also when the domain is empty but the suffix is shorter than the stripped hostname (a lone leading
+dot, `.co.uk`: stems.py:76) -/
+def hostStemsOfSplit (host0 hn : Str) : Option (Str × Str) → List TStem
   | none => normalHostStems host0
-  | some (domain, suffix) => ('h', suffix) :: (if domain ≠ [] then labelStems domain else [])
+  | some (domain, suffix) =>
+    List.replicate (hn.length - (rstripChars hn ['.']).length) ('h', []) ++
+      ('h', suffix) ::
+        (if domain ≠ [] ∨ suffix.length < (rstripChars hn ['.']).length then labelStems domain else [])
 
-/-- stems.py:47-75.  Lines 47-50 first: `if netloc[0].startswith("["): suffix_aware = False` —
+/-- stems.py:47-77.  Lines 47-50 first: `if netloc[0].startswith("["): suffix_aware = False` —
 a bracketed ip literal has no public suffix, `split_suffix` is not consulted (its zone id or
 IPvFuture text may well end with one: `[fe80::1%eth0.com]`, `[v1.a.com]`) -/
 def hostStems (sa : Bool) (netloc host0 : Str) : List TStem :=
   let sa := sa && !(host0.head? == some '[')
-  if sa then hostStemsOfSplit host0 (splitSuffixParsed splitSuffix netloc) else normalHostStems host0
+  if sa then hostStemsOfSplit host0 (lower (pyHostname netloc)) (splitSuffixParsed splitSuffix netloc)
+  else normalHostStems host0
 
 /-- stems.py:78-79: `for element in path.split("/")[1:]` -/
 def pathStems (path : Str) : List TStem := (splitChar '/' path).tail.map (fun e => ('p', e))
